@@ -18,7 +18,8 @@ ARGFORMS = ["-o F S", "S -o F", "--output F S", "S --output F", "default"]
 OUTNAMES = ["out.bin", "sub dir/o ut.bin", "x", "deep/er/path.img"]
 SENTINEL = b"SENTINEL-DO-NOT-TOUCH\n"
 
-BAD_ASM = ["LDAC", "BR nowhere\n", "LDAC -\n", "OPR LDAC\n", "FOO 1 2\nLDAC 3 4\n", "DATA\n", "LDAC 1\nBRZ missing\nlab\n",
+BAD_ASM = ["LDAM l\nl\nOPR ADD\n", "OPR ADD\nl\nOPR ADD\nSTAM l\n", "OPR ADD\nOPR ADD\nOPR ADD\nl\nLDAC 1\nLDBM l\nDATA 5\n",
+           "BR s\nDATA 7\ns\nLDAC 1\nm\nLDAC m\n", "x\nDATA 1\nLDAC 0\ny\nLDBC y\nLDAM x\n", "LDAC", "BR nowhere\n", "LDAC -\n", "OPR LDAC\n", "FOO 1 2\nLDAC 3 4\n", "DATA\n", "LDAC 1\nBRZ missing\nlab\n",
            "LDAM lab\nLDAC 0\nlab\nLDAC 1\n", "%%%\n", "LDAC 99999999999999999999 X Y Z ( )\n", "LDAM x\nOPR ADD\nOPR ADD\nx\nDATA 1\nLDAC y\n"]
 BAD_X = ["proc main() is", "proc main() is x := 1", "val a = ; proc main() is skip", "proc main() is 3(0)", "proc main() is { skip ; }",
          "proc main() is f(1)", "array a[v]; var v; proc main() is skip", "proc main() is if 1 then skip", "proc main() is 'ab'",
